@@ -75,6 +75,7 @@ class Machine:
         return trunc(v, w)
     def wr(s, r, v, w=64):
         s.written_gpr.add(r)
+        if r == 4 and w == 64 and isinstance(v, Ptr) and is_c(v.off): s.min_sp = v.off if getattr(s, 'min_sp', None) is None else min(s.min_sp, v.off)
         if w == 64: s.gpr[r] = v if isinstance(v, Ptr) else mk(v, 64)
         elif w == 32: s.gpr[r] = zx(v, 32, 64)
         else:
